@@ -32,8 +32,10 @@ Record row_obs := mkRO { ro_height : N; ro_id : option N; ro_status : status; ro
                          ro_prev : option N; ro_new : N; ro_retry : N }.
 Record step_obs := mkST { st_subs : list sub_obs; st_rows : option (list row_obs) (* None: same as after the previous event *);
                           st_synced : N }.
-Record case02 := mkCase02 { c_retry : bool; c_start : N; c_start_ler : N; c_pre : list xop; c_steps : list xop;
-                            c_obs : list step_obs }.
+(* c_seeds: certificates that exist before the sender starts (rows of certificate_info = the Agglayer's records),
+   ascending height, ids 0,1,2,... *)
+Record case02 := mkCase02 { c_retry : bool; c_start : N; c_start_ler : N; c_pre : list xop; c_seeds : list row_obs;
+                            c_steps : list xop; c_obs : list step_obs }.
 
 (* ---------- equality helpers ---------- *)
 Fixpoint list_eqb {A} (eqb : A -> A -> bool) (a b : list A) : bool :=
@@ -123,8 +125,17 @@ Fixpoint corr_run (retry : bool) (start ler : N) (s : xstate) (steps : list xop)
 Definition pre_state (pre : list xop) : xstate :=
   fold_left (fun s x => fst (xstep false 0 0 s (to_event 0 s x))) pre xstate_empty.
 
+Definition seed_row (s : xstate) (o : row_obs) : xrow :=
+  Row (ro_height o) (match ro_id o with Some i => i | None => 0 end) (ro_status o) (ro_from o) (ro_to o)
+      (match ro_prev o with Some p => p | None => 0 end) (ro_new o) (ro_retry o)
+      (bridges_in (l2 s) (ro_from o) (ro_to o)) (claims_in (l2 s) (ro_from o) (ro_to o)).
+Definition seeded_state (s : xstate) (seeds : list row_obs) : xstate :=
+  State (l2 s) (synced s) (tr s) (roots s) (rev (map (seed_row s) seeds))
+        (rev (map (fun o => AC (match ro_id o with Some i => i | None => 0 end) (ro_height o) (ro_status o)) seeds))
+        (N.of_nat (length seeds)) false.
+
 Definition corr (c : case02) : bool :=
-  let s0 := pre_state (c_pre c) in
+  let s0 := seeded_state (pre_state (c_pre c)) (c_seeds c) in
   (* getStartLER(): the tree root at the start block (the empty-tree root when nothing was deposited) *)
   corr_run (c_retry c) (c_start c) (c_start_ler c) s0 (c_steps c) (c_obs c) [].
 
@@ -239,8 +250,14 @@ Fixpoint spec02_run (start ler : N) (e : env) (steps : list xop) (obs : list ste
   end.
 
 Definition pre_env (pre : list xop) : env := fold_left env_step pre (mkEnv [] 0 []).
+(* seeded certificates are part of the environment: their content is taken to be the events of their range *)
+Definition seed_env (e : env) (seeds : list row_obs) : env :=
+  mkEnv (e_hist e) (e_synced e)
+        (map (fun o => mkEC (ro_height o) (ro_status o) (ro_from o) (ro_to o) (match ro_prev o with Some p => p | None => 0 end) (ro_new o)
+                            (map to_exit (hist_bridges e (ro_from o) (ro_to o)))
+                            (map to_imported (hist_claims e (ro_from o) (ro_to o)))) seeds).
 Definition spec_c02 (c : case02) : bool :=
-  spec02_run (c_start c) (c_start_ler c) (pre_env (c_pre c)) (c_steps c) (c_obs c) &&
+  spec02_run (c_start c) (c_start_ler c) (seed_env (pre_env (c_pre c)) (c_seeds c)) (c_steps c) (c_obs c) &&
   negb (Nat.eqb (length (c_obs c)) 0).
 
 (* ---- C03 ---- *)
@@ -280,7 +297,7 @@ Fixpoint spec03_run (e : env) (steps : list xop) (obs : list step_obs) (last : l
   | _ :: _, [] => false
   end.
 Definition spec_c03 (c : case02) : bool :=
-  spec03_run (pre_env (c_pre c)) (c_steps c) (c_obs c) [] && negb (Nat.eqb (length (c_obs c)) 0).
+  spec03_run (seed_env (pre_env (c_pre c)) (c_seeds c)) (c_steps c) (c_obs c) [] && negb (Nat.eqb (length (c_obs c)) 0).
 
 Fixpoint bad_indices {A} (f : A -> bool) (i : nat) (l : list A) : list nat :=
   match l with [] => [] | x :: t => if f x then bad_indices f (S i) t else i :: bad_indices f (S i) t end.
